@@ -183,3 +183,17 @@ def c11_decoys(pid, v, tier):
 
 
 TEMPLATES["C11.decoys"] = c11_decoys
+
+
+def c14_placement(pid, v, tier):
+    ex = v.get("extra") or {}
+    if ex.get("failing_input") is None:
+        return None
+    return {"found": True, "counterexample": {"file_content": ex["failing_input"], "directive": ex.get("directive"), "style": "structured" if ex.get("structured") else "unstructured",
+                                              "what": ex.get("what"), "file_after_edit": ex.get("after")},
+            "native_replay": {"how": "write the content to src/c.rs, Breadlog.yaml with use_cache: false, structured: %s and log_macros [log::info]; run `breadlog -c Breadlog.yaml`"
+                                     % ("true" if ex.get("structured") else "false"), "observed": ex.get("what")},
+            "replay_cmd": None}
+
+
+TEMPLATES["C14.placement"] = c14_placement
